@@ -115,16 +115,17 @@ def mvar(ex, mono):
             ex.add((v == 0) == z3.Or(a == 0, b == 0))
             ex.add(z3.Implies(a == 1, v == b))
             ex.add(z3.Implies(b == 1, v == a))
-            if len(mono) == 2:
-                # cancellation: x*y = x*z  iff  x = 0 or y = z
-                for m2, v2 in list(st['mvars'].items()):
-                    if len(m2) == 2 and m2 != mono:
-                        common = set(mono) & set(m2)
-                        if len(common) == 1 and mono[0] != mono[1] and m2[0] != m2[1]:
-                            g = common.pop()
-                            o1 = mono[0] if mono[1] == g else mono[1]
-                            o2 = m2[0] if m2[1] == g else m2[1]
-                            ex.add((v == v2) == z3.Or(mvar(ex, (g,)) == 0, mvar(ex, (o1,)) == mvar(ex, (o2,))))
+            # cancellation: c*y = c*z  iff  c = 0 or y = z   (for monomials that differ in exactly one generator)
+            from collections import Counter
+            cm = Counter(mono)
+            for m2, v2 in list(st['mvars'].items()):
+                if len(m2) == len(mono) and m2 != mono:
+                    c2 = Counter(m2)
+                    d1, d2 = cm - c2, c2 - cm
+                    if sum(d1.values()) == 1 and sum(d2.values()) == 1:
+                        g1 = next(iter(d1)); g2 = next(iter(d2))
+                        common = tuple(sorted((cm - d1).elements()))
+                        ex.add((v == v2) == z3.Or(mvar(ex, common) == 0, mvar(ex, (g1,)) == mvar(ex, (g2,))))
     return v
 
 def lin(ex, p):
@@ -133,12 +134,31 @@ def lin(ex, p):
         terms.append(z3.IntVal(c) if m == () else z3.IntVal(c) * mvar(ex, m))
     return z3.Sum(terms) if terms else z3.IntVal(0)
 
+def is_formal(g):
+    return g.startswith('h') and not g.startswith('hx')
+
 def zero_cond(ex, p):
-    """truth value (python bool or z3 Bool) of  p == 0 in Z_r"""
+    """truth value (python bool or z3 Bool) of  p == 0 in Z_r.
+    Discrete logs of hash-to-curve outputs are formal indeterminates (random-oracle / generic-group
+    assumption): a polynomial in them vanishes iff every coefficient does -- unless the polynomial also
+    involves points decoded from adversarial bytes, which may depend on the hash values."""
     if p.is_zero():
         return True
     if p.is_const():
         return False
+    gens = set(g for m in p.t for g in m)
+    if any(is_formal(g) for g in gens) and not any(g.startswith('dec') for g in gens):
+        groups = {}
+        for mono, c in p.t.items():
+            hp = tuple(g for g in mono if is_formal(g))
+            rest = tuple(g for g in mono if not is_formal(g))
+            groups.setdefault(hp, {})[rest] = c
+        r = True
+        for hp, t in groups.items():
+            r = band(r, zero_cond(ex, Poly(t)))
+            if r is False:
+                return False
+        return r
     if len(p.t) == 1:
         (m, c), = p.t.items()
         e = mvar(ex, m) == 0
@@ -373,6 +393,12 @@ def enc_bytes(ex, e):
     bs = [simp(z3.Extract(w - 1 - 8 * i, w - 8 - 8 * i, t)) for i in range(nb)]
     st = G(ex)
     if st['encoded'].get(t) is None:
+        # the encoding is injective on group elements (instance axioms against the elements encoded so far)
+        for lst in st['encoded'].d.values():
+            for (t2, a2) in lst:
+                if a2.kind == a.kind and a2 is not a:
+                    same = band(zero_cond(ex, a.dlog - a2.dlog), zero_cond(ex, a.tors - a2.tors))
+                    ex.add((t == t2) == (z3.BoolVal(same) if isinstance(same, bool) else same))
         st['encoded'].set(t, a)
     if c0 is False:
         return bs
@@ -660,6 +686,22 @@ def wrap256(orig, op):
         sc_write(ex, a[0], r)
     return f
 
+def wrap_vec_cmp(orig, binary):
+    """vec_is_zero / vec_is_equal on 32-byte polynomial scalars: decided in the polynomial domain"""
+    def f(L, ex, a, I):
+        n = a[2] if binary else a[1]
+        if getattr(ex, 'galg_scalars', False) and isinstance(n, int) and n == 32:
+            try:
+                x = rd(ex, a[0], 4)
+                y = rd(ex, a[1], 4) if binary else 0
+            except GoPanic:
+                return orig(L, ex, a, I)
+            if _is_poly_term(ex, x) or _is_poly_term(ex, y):
+                if (isinstance(x, int) or _is_poly_term(ex, x)) and (isinstance(y, int) or _is_poly_term(ex, y)):
+                    return cstubs.b2l(zero_cond(ex, sc_of_term(ex, x) - sc_of_term(ex, y)))
+        return orig(L, ex, a, I)
+    return f
+
 def st_inverse_alg(orig):
     def f(L, ex, a, I):
         x = rd(ex, a[1], 4)
@@ -713,6 +755,10 @@ def install(L):
                      ('@sqrx_mont_sparse_256', 'sqr'), ('@sqr_mont_sparse_256', 'sqr'), ('@fromx_mont_256', 'from'), ('@from_mont_256', 'from'),
                      ('@cneg_mod_256', 'cneg')):
         S[name] = wrap256(S[name], op)
+    for n in ('@vec_is_zero', '@vec_is_zero_16x'):
+        S[n] = wrap_vec_cmp(S[n], False)
+    for n in ('@vec_is_equal', '@vec_is_equal_16x'):
+        S[n] = wrap_vec_cmp(S[n], True)
     S['@ct_inverse_mod_256'] = st_inverse_alg(S['@ct_inverse_mod_256'])
     for n in ('@redcx_mont_256', '@redc_mont_256'):
         S[n] = st_redc_alg(S[n])
